@@ -8,6 +8,7 @@ import (
 	"bytes"
 	"encoding/json"
 	"errors"
+	"sort"
 	"sync"
 	"sync/atomic"
 	"unsafe"
@@ -390,8 +391,15 @@ func (m *ValueMap) Range(f func(key string, value *VMValue) bool) {
 		m.mu.Unlock()
 	}
 
-	for k, e := range read.m {
-		v, ok := e.load()
+	// 按键名排序后遍历：Go 的 map 遍历顺序是随机的，会让 keys()/values()/items()、字典的文本形式、
+	// 序列化结果以及计算过程在同一种子下的两次执行之间不一致
+	keys := make([]string, 0, len(read.m))
+	for k := range read.m {
+		keys = append(keys, k)
+	}
+	sort.Strings(keys)
+	for _, k := range keys {
+		v, ok := read.m[k].load()
 		if !ok {
 			continue
 		}
